@@ -1573,7 +1573,8 @@ Section KeysetReader.
     induction ns as [|n ns IH]; intros d m Hm; cbn [dr_reads reads]; [reflexivity|].
     unfold dr_read. rewrite Hm.
     destruct (read (SDEC (m_key m) (m_sk m)) urfull (k_rparams (m_key m) (m_prefix m)) (m_st m) n) as (st', r).
-    rewrite (IH _ (mkM (m_key m) (m_sk m) (m_prefix m) st') eq_refl). cbn [m_key m_sk m_prefix m_st].
+    rewrite (IH (mkDR true (Some (mkM (m_key m) (m_sk m) (m_prefix m) st')) (dr_cr d))
+                (mkM (m_key m) (m_sk m) (m_prefix m) st') eq_refl). cbn [m_key m_sk m_prefix m_st].
     destruct (reads _ _ _ st' ns). reflexivity.
   Qed.
 
